@@ -220,10 +220,21 @@ func (c15) Run(ctx *core.RunCtx) {
 		p := r.parties[i]
 		var poly multiparty.ShamirPolynomial
 		var err error
-		pk, site, msg := core.Protect(func() { poly, err = p.thr.GenShamirPolynomial(t, p.sk) })
+		// the key object handed to the dealer's polynomial is the party's own, or a copy that the party overwrites
+		// once the polynomial exists (the polynomial holds its coefficients, the shares are dealt later)
+		skArg := p.sk
+		discard := ch.Chance("dealer-key-object-overwritten-after", 1, 4)
+		if discard {
+			skArg = p.sk.CopyNew()
+		}
+		pk, site, msg := core.Protect(func() { poly, err = p.thr.GenShamirPolynomial(t, skArg) })
 		if pk || err != nil {
 			ctx.Fail("setup", "GenShamirPolynomial", "GenShamirPolynomial(t=%d) failed: panic=%v %s %s err=%v", t, pk, site, msg, err)
 			return
+		}
+		if discard {
+			catalog.FillPolyQP(*params.RingQP(), skArg.Value, core.NewXoshiro(uint64(i)+77))
+			ctx.Count("probe.dealer-key-object-overwritten-after-polynomial", 1)
 		}
 		skBefore := hashQP(p.sk.Value)
 		for _, j := range ch.Perm("recipient-order", N) {
